@@ -141,6 +141,14 @@ func prepareQuery(ctx context.Context, typ Type, selectionSet *SelectionSet, pre
 		prepared[preparedSelectionSet{typ, selectionSet}] = struct{}{}
 
 		for _, fragment := range selectionSet.Fragments {
+			if fragment.On == typ.Name {
+				// A fragment on the union itself applies to every member: its
+				// contents are selections on the union again.
+				if err := prepareQuery(ctx, typ, fragment.SelectionSet, prepared); err != nil {
+					return err
+				}
+				continue
+			}
 			for typString, graphqlTyp := range typ.Types {
 				if fragment.On != typString {
 					continue
